@@ -15,6 +15,8 @@ Families (field fam)
             followed by every kind of continuation (C01, C04)
   nest    : by-functions and map inside the expression reference of a by-function (state carried within one evaluation) (C02, C05)
   compose : every built-in applied to what the any-typed built-ins pass through, expression references in containers included (C05, C06)
+  errpair : two failing sub-expressions under every binary construct, each with a succeeding partner too: which failure is reported (C01, C06)
+  deep    : every nesting constructor at depths 1..8 on a document nested to match (C01)
   alias   : the same document node reached twice (both operands of a comparison, two arguments of a call) (C01, C10, C06)
 """
 import itertools, json, os, sys
@@ -176,6 +178,40 @@ for f in two:
 for a in args1:
     add("compose", "foo[*].to_string([@, %s])" % a, cdoc2)
     add("compose", "%s == %s" % (a, a), cdoc2)
+
+# ---------------------------------------------------------------- errpair
+# two failing sub-expressions in one expression: evaluation is left to right and the FIRST failure is the one reported (short-circuit
+# operators skip the right side; arguments are evaluated before the call is looked up and validated)
+edoc = {"a": [1, 2], "s": "x", "n": 1, "t": True, "f": False, "z": None}
+fails = ["abs(s)", "abs()", "nosuch(n)", "a[::0]", "length(n)", "keys(a)", "sum(s)", "abs(n, n)"]
+oks = ["n", "z", "t", "f", "s", "a", "abs(n)"]
+ctx = ["%s || %s", "%s && %s", "%s == %s", "%s | %s", "[%s, %s]", "{x: %s, y: %s}", "not_null(%s, %s)", "%s < %s", "a[?%s].x || %s", "!%s || %s",
+       "nosuch(%s, %s)", "abs(%s, %s)", "contains(%s, %s)", "a[*].[%s, %s]", "map(&%s, a) || %s", "sort_by(a, &%s) || %s", "(%s).x || %s", "%s.x.y && %s"]
+for c in ctx:
+    for x, y in itertools.product(fails[:6], fails[:6]):
+        add("errpair", c % (x, y), edoc)
+    for x in fails:
+        for y in oks:
+            add("errpair", c % (x, y), edoc)
+            add("errpair", c % (y, x), edoc)
+
+# ---------------------------------------------------------------- deep
+# every nesting constructor at depths 1..8 with a document nested to match: the value, not only termination
+def deepdoc(d):
+    v = 1
+    for _ in range(d):
+        v = {"a": [v, None], "b": v if not isinstance(v, int) else 2}
+    return v
+for d in range(1, 9):
+    dd = deepdoc(8)
+    forms = {"paren": "(" * d + "a" + ")" * d, "not": "!" * d + "a", "dot": "a" + "[0].a" * (d - 1), "index": "a" + "[0].a[0]" * (d - 1) if d < 5 else "a[0]",
+             "star": "a" + "[*].a" * (d - 1) + "[*]", "flat": "a" + "[]" * d, "list": "[" * d + "a" + "]" * d, "hash": "{a: " * d + "a" + "}" * d,
+             "pipe": "a" + " | [0].a" * (d - 1), "or": "z" + " || z" * (d - 1) + " || b", "and": "a" + " && a" * (d - 1) + " && b.b",
+             "call": "not_null(" * d + "a[1]" + ", `%d`)" % d * 1 + ")" * (d - 1), "filter": "a" + "[?a]" * d, "vals": "@" + ".*" * d,
+             "expref": "map(&" * d + "a" + ", @)" * 1 + ", to_array(@))" * (d - 1), "cmp": "a" + " == a" * d, "slice": "a" + "[:1]" * d,
+             "mixed": "a" + ("[*].a[0] | [?a].b" * d)[: 17 * d]}
+    for k, t in forms.items():
+        add("deep", t, dd)
 
 out = os.path.join(VERIF, "spec", "gen", "eval_pools.ndjson")
 with open(out, "w") as f:
